@@ -43,6 +43,7 @@ where
 ///    (A,B,A,B / A,B,A,A patterns of two-entry caches; 10^4 sequences);
 ///  * the whole menu walked in ten strides (i -> i*k mod m, k = 1, 2, 3, 5, 7, 11, 13, 16, 17, 31) forwards and backwards,
 ///    every call judged (memos with a lossy key collide on inputs a fixed distance apart);
+///  * 140 000 consecutive calls of one operation (six operations), every call judged: counters that overflow;
 ///  * nine repetitions of one operation followed by another one, for every pair of a sub-menu of up to 24 operations
 ///    (counters, eviction, tables that fill up);
 ///  * every prelude of `props::perturb` (calls into OTHER parts of the API) followed by every operation of the menu, each on
@@ -213,6 +214,32 @@ where
                             found = Some(("result-depends-on-the-previous-calls", e, o));
                             break 'p5;
                         }
+                    }
+                }
+            }
+            // phase 5b: long runs of ONE operation - 140 000 consecutive calls (beyond 2^16 and 2^17), every call judged, then one
+            // other operation: hit counters, generation counters and reference counts kept in 8 or 16 bits overflow only here
+            if found.is_none() {
+                let m5 = pick(6);
+                'p5b: for (n, &a) in m5.iter().enumerate() {
+                    let b = m5[(n + 1) % m5.len()];
+                    let r = std::thread::scope(|sc| {
+                        sc.spawn(|| {
+                            for k in 0..140_000u32 {
+                                if let Some(x) = judge(a, &|| format!("{k} consecutive calls of operation #{a}")) {
+                                    return Some(x);
+                                }
+                            }
+                            judge(b, &|| format!("140 000 consecutive calls of operation #{a}"))
+                        })
+                        .join()
+                        .ok()
+                        .flatten()
+                    });
+                    deeper += 140_001;
+                    if let Some((e, o)) = r {
+                        found = Some(("result-depends-on-the-number-of-earlier-calls", e, o));
+                        break 'p5b;
                     }
                 }
             }
